@@ -567,6 +567,16 @@ def gssvx_case(rng, prec, quick, kind='mixed', nmax=None):
     c['trans'] = rng.choice([0, 1, 2]); c['stype'] = rng.choice(['nc', 'nr'])
     c['equil'] = rng.choice([1, 1, 0])
     c['nrhs'] = rng.choice([0, 1, 1, 3])
+    if kind != 'svd' and rng.random() < 0.15:
+        # exact integer systems (unit triangular, entries +-1) whose solutions have exactly zero components
+        c['fam'] = rng.choice(['band', 'band', 'forest', 'chain', 'tree']); c.pop('cond', None); c.pop('svmode', None)
+        if c['fam'] == 'rand': c['dens'] = round(min(1.0, 4.0 / max(c['n'], 1)), 4)
+        if c['fam'] == 'band': c['bl'] = 3; c['bu'] = 3
+        if c['fam'] == 'forest': c['bs'] = 3; c['ncpl'] = 2
+        if c['fam'] == 'tree': c['shape'] = rng.choice([0, 2, 3]); c['kary'] = 3; c['xanc'] = 0.3
+        c['unitri'] = rng.choice([1, 2]); c['vals'] = 'int'; c['rhs'] = 'xsparse'; c['nrhs'] = rng.choice([1, 2, 3])
+        for k2 in ('rscale', 'cscale', 'dom'): c.pop(k2, None)
+        c['exact'] = 1
     if rng.random() < 0.5 and c['nrhs'] > 0:
         c['factored'] = 1; c['trans2'] = rng.choice([0, 1, 2])
     if rng.random() < 0.3: c['ldpad'] = 2; c['ldxpad'] = rng.choice([0, 3])
@@ -577,6 +587,8 @@ def gssvx_case(rng, prec, quick, kind='mixed', nmax=None):
     c['rowblk'] = rng.choice([2, 4, 200]); c['colblk'] = rng.choice([2, 4, 100])
     if c['np'] > 1 and rng.random() < 0.6:
         c['pmode'] = rng.choice([1, 2]); c['pert'] = rng.randrange(1, 1 << 30)
+    if c.get('exact'):
+        c['ord'] = 0; c['u'] = 1.0; c['n'] = max(c['n'], 5)
     return c
 
 X_COUNTERS = ('tight_judged', 'nrhs', 'premised', 'rcond_judged', 'pipe_takes', 'thr_panels')
@@ -735,7 +747,7 @@ PROPS['C06'] = dict(gen=gen_c06, relevant=('C06|', 'C07|info-range', 'C01|info-r
 def gen_c19(ctx):
     rng = ctx.rng
     out = []
-    N = 3000 if ctx.quick else 60000
+    N = 15000 if ctx.quick else 150000
     for i in range(N):
         prec = rng.choice(PRECS)
         sub = rng.choice(['gemv', 'gemv', 'gemv', 'gemm', 'trsv', 'langs', 'convert'])
@@ -806,15 +818,17 @@ def gen_c10(ctx):
                 c = {'cmd': 'order', 'sub': 'colorder', 'fam': 'bits', 'n': n, 'bits': bits, 'ord': ord_, 'symm': k % 2, 'seed': 1 + k % 13, 'exh': 1}
                 if k % 5 == 0: c['randperm'] = 1
                 out.append(({'variant': 'plain' if k % 4 else 'asan', 'prec': 'd'}, c))
-    N = 2500 if ctx.quick else 40000
+    N = 12000 if ctx.quick else 120000
     for i in range(N):
         n = rng.choice([2, 3, 5, 8, 12, 20, 30, 50, 80, 120] if ctx.quick else [2, 3, 5, 8, 12, 20, 30, 50, 80, 120, 200, 300])
-        fam = rng.choice(['rand', 'rand', 'randnd', 'band', 'grid', 'arrow', 'star', 'forest', 'chain', 'dense'])
+        fam = rng.choice(['rand', 'rand', 'randnd', 'band', 'grid', 'arrow', 'star', 'forest', 'chain', 'dense', 'blockdiag', 'tree'])
         if fam == 'dense': n = min(n, 20)
         c = {'cmd': 'order', 'sub': 'colorder', 'fam': fam, 'n': n, 'seed': rng.randrange(1, 1 << 30), 'ord': rng.choice([0, 1, 2, 3]), 'symm': rng.choice([0, 0, 1])}
         if fam in ('rand', 'randnd'):
             c['dens'] = round(min(1.0, rng.choice([1.0, 2.5, 5]) / n), 4); c['transversal'] = rng.choice([0, 1])
         if fam in ('star', 'forest'): c['bs'] = rng.choice([1, 2, 3, 5]); c['ncpl'] = rng.choice([1, 2])
+        if fam == 'blockdiag': c['bs'] = rng.choice([1, 2, 3]); c['bdens'] = rng.choice([0.3, 0.8, 1.0])
+        if fam == 'tree': c['shape'] = rng.choice([0, 1, 2, 3, 4]); c['kary'] = rng.choice([2, 3, 5]); c['xanc'] = rng.choice([0, 0.3])
         r = rng.random()
         if r < 0.15: c['emptycol'] = rng.randrange(n)
         elif r < 0.3: c['emptyrow'] = rng.randrange(n)
@@ -883,7 +897,7 @@ PROPS['C11'] = dict(gen=gen_c11, relevant=('C11|',), counters=('nnz',), batch=40
 
 # ---- C15 ----
 EQV = (11, 12, 13, 24, 25, 26)     # violations that set fact/equed themselves: not combined with each other or with an illegal fact
-ARG_TABLE = {'gssv': 9, 'gssvx': 27, 'gstrs': 6, 'gsrfs': 12, 'gscon': 5, 'gsequ': 4, 'trsv': 6, 'gemv': 4}
+ARG_TABLE = {'gssv': 11, 'gssvx': 29, 'gstrs': 7, 'gsrfs': 14, 'gscon': 5, 'gsequ': 4, 'trsv': 6, 'gemv': 4}
 
 def gen_c15(ctx):
     rng = ctx.rng
@@ -893,8 +907,6 @@ def gen_c15(ctx):
             for v in range(nv):
                 out.append(({'variant': 'asan' if (v % 2 == 0) else 'plain', 'prec': prec}, {'cmd': 'args', 'rt': rt, 'v1': v, 'n': 4 + v % 3, 'seed': 7 + v}))
             pairs = [(a, b) for a in range(nv) for b in range(a + 1, nv) if not (rt == 'gssvx' and ((a == 1 and b in EQV) or (a in EQV and b in EQV)))]
-            if ctx.quick:
-                rng.shuffle(pairs); pairs = pairs[:25]
             for a, b in pairs:
                 out.append(({'variant': 'plain' if (a + b) % 3 else 'asan', 'prec': prec}, {'cmd': 'args', 'rt': rt, 'v1': a, 'v2': b, 'n': 5, 'seed': 11 + a * 31 + b}))
     return out
@@ -908,7 +920,7 @@ def cov_c15(ctx, recs):
 
 PROPS['C15'] = dict(gen=gen_c15, relevant=('C15|',), counters=('xerbla_calls',), batch=30, coverage_extra=cov_c15,
                     nontrivial=lambda r: 'want' in (r.get('result') or {}),
-                    rule='table-driven: every single documented-precondition violation and pairs of violations (all pairs thorough, 25 sampled per routine quick) for p?gssv, p?gssvx, ?gstrs, ?gsrfs, ?gscon, ?gsequ, sp_?trsv, sp_?gemv, '
+                    rule='table-driven: every single documented-precondition violation and all pairs of violations for p?gssv, p?gssvx, ?gstrs, ?gsrfs, ?gscon, ?gsequ, sp_?trsv, sp_?gemv, '
                     '4 precisions, plain and ASan builds; distinct = sha1(case); oracle: info = -(lowest documented position), the error handler is called exactly once with that position, '
                     'FNV checksums over every argument-reachable byte unchanged, live heap bytes unchanged, no thread created')
 
@@ -943,7 +955,7 @@ def rand_ops(rng, length):
 def gen_c08(ctx):
     rng = ctx.rng
     out = []
-    N = 900 if ctx.quick else 20000
+    N = 2500 if ctx.quick else 30000
     for i in range(N):
         prec = rng.choice(PRECS)
         c = hist_base(rng, ctx.quick)
@@ -1002,6 +1014,17 @@ def gen_c14(ctx):
         c['ops'] = rng.choice(['F,S0', 'F,S0', 'F,S0,R1,S1'])
         c['nps'] = str(rng.choice([2, 3, 4, 4, 8])); c['pmode'] = rng.choice([7, 7, 1, 0]); c['pert'] = rng.randrange(1, 1 << 30)
         out.append(({'variant': 'plain', 'prec': prec, 'class': 'wsmt'}, c))
+    # capacity of U / of the L subscripts near the real need, in both memory modes: the run either fits (factors checked,
+    # arrays disjoint inside the buffer) or stops through the "Storage for ... exceeded" diagnostic; one case per process
+    NF = 500 if ctx.quick else 8000
+    for i in range(NF):
+        prec = rng.choice(PRECS)
+        c = hist_base(rng, ctx.quick, nmax=44)
+        c['n'] = max(c['n'], 8)
+        c['mem'] = rng.choice([1, 1, 0]); c['lwfrac'] = 2.0
+        c['fill7frac' if rng.random() < 0.7 else 'fill8frac'] = round(rng.choice([0.3, 0.5, 0.7, 0.8, 0.9, 1.0, 1.1, 1.2, 1.4, 1.7, 2.0, 3.0]) + rng.random() * 0.1, 3)
+        c['ops'] = 'F,S0'; c['nps'] = str(rng.choice([1, 1, 2, 4]))
+        out.append(({'variant': 'asan' if c['mem'] == 0 else 'plain', 'prec': prec, 'per_process': True, 'class': 'capacity', 'dump': False}, c))
     # (c) failing allocator behind USER_MALLOC: request k and all later ones fail, k = 1..K
     configs = []
     for prec in PRECS:
@@ -1025,7 +1048,7 @@ OOM_MARKS = ('queue_init fails', 'SUPERLU_MALLOC fail', 'Malloc fails', 'malloc 
 def judge_c14(ctx, r, out):
     m = r['meta']; c = r['case']; res = r.get('result')
     cls = m.get('class')
-    if cls not in ('workspace', 'failalloc'):
+    if cls not in ('workspace', 'failalloc', 'capacity'):
         return False
     if r.get('timeout'):
         return False
@@ -1090,8 +1113,8 @@ PROPS['C14'] = dict(gen=gen_c14, relevant=('C14|', 'C08|reconstruction', 'C08|re
 def gen_c17(ctx):
     rng = ctx.rng
     out = []
-    N = 260 if ctx.quick else 4000
-    seqs = ['F,S0,D', 'F,R1,S1,R0,S0,D', 'V', 'E', 'V1', 'E1', 'X', 'V,E,V1,E1,X,F,S0,D', 'F,D,F,R0,D', 'E2', 'Q,E2,F,S0,D']
+    N = 900 if ctx.quick else 8000
+    seqs = ['F,S0,D', 'F,R1,S1,R0,S0,D', 'V', 'E', 'V1', 'E1', 'X', 'V,E,V1,E1,X,F,S0,D', 'F,D,F,R0,D', 'E2', 'Q,E2,F,S0,D', 'E3', 'E4', 'E3,E4,E', 'E3,V,E1']
     for i in range(N):
         prec = rng.choice(PRECS)
         c = hist_base(rng, ctx.quick, nmax=30)
@@ -1177,7 +1200,8 @@ def gen_c18(ctx):
         c = hist_base(rng, ctx.quick, nmax=44)
         if rng.random() < 0.3: c['fam'] = 'svd'; c['cond'] = rng.choice([1e3, 1e6, 1e9]); c['n'] = min(c['n'], 30)
         elif rng.random() < 0.3: c['vals'] = 'hostile'; c['dom'] = 'row'
-        c['ops'] = rng.choice(['E', 'E', 'E', 'V', 'F,S0']); c['nps'] = '1'
+        c['ops'] = rng.choice(['E', 'E', 'E', 'V', 'F,S0', 'E3', 'E4']); c['nps'] = '1'
+        if rng.random() < 0.25: c['zerorhs'] = rng.choice([1, 1, 2])      # thresholds for tiny denominators come into play
         prec = rng.choice(PRECS)
         a = dict(c); a['probe'] = 1000 + i
         b = dict(c); b['probe'] = 1000 + i; b['pre'] = rng.choice(sweeps) % rng.randrange(1, 100000)
@@ -1233,6 +1257,16 @@ def gen_c16(ctx):
         m = {'variant': v, 'prec': pv[i]}
         if v == 'tsan': m['per_process'] = True; c['n'] = min(c['n'], 60); c['oracle'] = 0
         out.append((m, c))
+    # gadgets on which the A+A' prediction and the column structure of A differ most: pendants + a clique attached through one row
+    NG = 400 if ctx.quick else 6000
+    pv = spread(rng, NG)
+    for i in range(NG):
+        relax = rng.choice([2, 3, 4, 6, 6, 8])
+        npend = max(1, relax + rng.choice([-1, -1, -1, 0, -2])); nd = rng.choice([3, 5, 7, 9, 12]); nabs = rng.choice([0, 4, 12])
+        c = {'cmd': 'gstrf', 'fam': 'pendclique', 'npend': npend, 'nd': nd, 'n': npend + 1 + nd + nabs, 'symstruct': 1 if rng.random() < 0.15 else 0, 'seed': rng.randrange(1, 1 << 30),
+             'vals': 'generic', 'dom': rng.choice(['row', 'col']), 'np': rng.choice([1, 2, 4]), 'ord': rng.choice([2, 2, 2, 0]), 'w': rng.choice([1, 2, 4, 8]), 'relax': relax,
+             'maxsup': max(relax, rng.choice([8, 24])), 'rowblk': 200, 'colblk': 100, 'symm': 1, 'u': 0.0, 'expect_diag': 1}
+        out.append(({'variant': 'asan' if i % 3 == 0 else 'plain', 'prec': pv[i]}, c))
     # through the expert driver as EXAMPLE/p?linsolx2.c does
     M = 400 if ctx.quick else 6000
     for i in range(M):
@@ -1259,7 +1293,7 @@ def gen_c20(ctx):
     from vlib import mmio
     rng = ctx.rng
     out = []
-    N = 1200 if ctx.quick else 30000
+    N = 4000 if ctx.quick else 40000
     d = os.path.join(getattr(ctx, 'workdir', '/verif/.cache'), 'files')
     os.makedirs(d, exist_ok=True)
     for i in range(N):
